@@ -96,4 +96,12 @@ def obligations(repo):
     obs.append(dict(id="C16.stop", prop="C16", harness=CALLH, entry="h_stop", enforce="vm_ffi_cop_stop", replace=["cop_send"], sources=["src/nanovm/cop_protocol.c"],
                     unwind=8, strength="U", functions=["vm_ffi_cop_stop", "cop_send_simple"],
                     must_have=[r"vm_ffi_cop_stop\.postcondition", r"OS: waitpid", r"COVER"], min_checks=30))
+    # C16.sigpipe: nano_vm's main ignores SIGPIPE before run_standalone (harness of the exit unit, see harness/exit_h.c)
+    import os, sys
+    sys.path.insert(0, os.path.dirname(os.path.abspath(__file__)))
+    import c10_exit
+    obs.append(dict(id="C16.sigpipe", prop="C16", harness=c10_exit.EXIT, entry="h_vm_main", annotate=c10_exit.VM_ANN,
+                    defines={"EXIT_UNIT_VM_MAIN": 1, "VERIF_SIGPIPE": 1}, enforce="vm_main", replace=["run_standalone", "run_daemon"],
+                    loops=True, unwind="auto", checks=[], flags=c10_exit.NOCHK, gi_flags=c10_exit.GI, strength="U",
+                    functions=["main (nano_vm)"], timeout=600, must_have=[r"run_standalone\.precondition", r"loop_invariant_step"], min_checks=10))
     return obs
